@@ -200,33 +200,38 @@ Definition eol_of (crlf : bool) : str := if crlf then [CR; LF] else [LF].
 
 Definition not_comment (l : str) : bool := negb (is_comment l).
 
-(** * Blocks with comment lines (Dsc/Changes, see Deb822/ProofsGpgMv.v)
+(** * Documents with comment lines, structurally (Dsc/Changes, see Deb822/ProofsGpgMv.v)
 
-    Comment lines may stand before the block's first line ([cb_pre]), anywhere
-    among the paragraph's lines ([cb_body], whose non-comment lines are the
-    paragraph's), and among the armour's header and signature lines (both
-    [armor_text_line] and [sig_line] accept them). *)
+    Between blocks there is a gap: comment lines and blank lines in any order
+    (so also whole blocks of comment lines closed by blank lines).  Inside a
+    block comment lines may stand anywhere among the paragraph's lines
+    ([cb_body], whose non-comment lines are the paragraph's) and among the
+    armour's header and signature lines (both [armor_text_line] and [sig_line]
+    accept them).  A blank line of a gap may contain spaces/tabs under either
+    strictness; only the line that ends an unsigned paragraph must be a
+    [sep_line]. *)
 Definition comment_line (l : str) : bool := is_comment l && no_linebreak l.
+Definition gap_line (l : str) : bool := comment_line l || ws_line l.
 
 Record cblock := mkCBlock {
   cb_para : list (str * str);
-  cb_pre : list str;
   cb_body : list str;
   cb_armor : option armor;
-  cb_seps : list str;
+  cb_gap : list str;
 }.
 
 Definition cblock_lines (cb : cblock) : list str :=
-  cb_pre cb ++ (wrap_lines (cb_armor cb) (cb_body cb) ++ cb_seps cb).
+  wrap_lines (cb_armor cb) (cb_body cb) ++ cb_gap cb.
 
+(** an unsigned paragraph ends at a blank line (or at the end of the input) *)
 Definition valid_cblock (ws last : bool) (cb : cblock) : bool :=
   valid_para (cb_para cb) && negb (is_nil' (cb_para cb))
-  && forallb comment_line (cb_pre cb)
   && forallb no_linebreak (cb_body cb)
   && strs_eqb (filter not_comment (cb_body cb)) (para_lines (cb_para cb))
+  && forallb gap_line (cb_gap cb)
   && match cb_armor cb with
-     | None => valid_seps ws (cb_seps cb) || (last && is_nil' (cb_seps cb))
-     | Some a => valid_armor ws a && forallb ws_line (cb_seps cb)
+     | None => match cb_gap cb with [] => last | s :: _ => sep_line ws s end
+     | Some a => valid_armor ws a
      end.
 
 Fixpoint valid_cblocks (ws : bool) (cbs : list cblock) : bool :=
@@ -235,9 +240,9 @@ Fixpoint valid_cblocks (ws : bool) (cbs : list cblock) : bool :=
   | cb :: cbs' => valid_cblock ws (is_nil' cbs') cb && valid_cblocks ws cbs'
   end.
 
-(** leading blank lines, commented blocks, trailing comment lines *)
-Definition cdoc_lines (lead : list str) (cbs : list cblock) (trail : list str) : list str :=
-  lead ++ concat (map cblock_lines cbs) ++ trail.
+(** leading gap, then the blocks *)
+Definition cdoc_lines (lead : list str) (cbs : list cblock) : list str :=
+  lead ++ concat (map cblock_lines cbs).
 
 (** * C08 *)
 
